@@ -9,6 +9,7 @@ the Java source and instantiated into replies; the Python writers/readers are ev
 from __future__ import annotations
 
 import ast
+import itertools
 import re
 from typing import Any, Dict, List, Optional, Tuple
 
@@ -313,8 +314,139 @@ def check_printer(repo: Repo, rep: Report, h: Harness) -> Dict[str, str]:
             rep.finding("OPC-4", SUGAR, "_convert_expr", f"printing of Op.{op}", f"the printer raises {ex.what} for a producible operator")
         except IndexOutOfRange as ex:
             rep.finding("OPC-4", SUGAR, "_convert_expr", f"printing of Op.{op}", f"the printer indexes past the operands: {ex}")
+    # nested trees: the text, read with the Sugar grammar, must mean what the tree means (flattening an associative operator is
+    # fine, flattening a subtraction is not)
+    try:
+        em = EM.ExprWorld(repo)
+        leaves_i = {"i4": p, "i5": q, "i6": r}
+        leaves_b = {"b1": x, "b2": y, "b3": z}
+        T = h.tree
+        shapes = [
+            ("a - (b - c)", T("i", "SUB", [p, T("i", "SUB", [q, r])])), ("(a - b) - c", T("i", "SUB", [T("i", "SUB", [p, q]), r])),
+            ("a - (b + c)", T("i", "SUB", [p, T("i", "ADD", [q, r])])), ("a + (b - c)", T("i", "ADD", [p, T("i", "SUB", [q, r])])),
+            ("a + (b + c)", T("i", "ADD", [p, T("i", "ADD", [q, r])])), ("-(a - b)", T("i", "NEG", [T("i", "SUB", [p, q])])),
+            ("a - (-b)", T("i", "SUB", [p, T("i", "NEG", [q])])), ("a - b - c (one node)", T("i", "SUB", [p, q, r])),
+            ("x & (y & z)", T("b", "AND", [x, T("b", "AND", [y, z])])), ("x | (y & z)", T("b", "OR", [x, T("b", "AND", [y, z])])),
+            ("x => (y => z)", T("b", "IMP", [x, T("b", "IMP", [y, z])])), ("(x => y) => z", T("b", "IMP", [T("b", "IMP", [x, y]), z])),
+            ("x xor (y xor z)", T("b", "XOR", [x, T("b", "XOR", [y, z])])), ("!(x | y)", T("b", "NOT", [T("b", "OR", [x, y])])),
+            ("(a - b) == c", T("b", "EQ", [T("i", "SUB", [p, q]), r])), ("if x then a - b else c", T("i", "IF", [x, T("i", "SUB", [p, q]), r])),
+        ]
+        if "SUB" not in by:
+            shapes = [s_ for s_ in shapes if "SUB" not in repr(s_[1].attrs) and " - " not in s_[0]]
+        badn = None
+        nn = 0
+        for label, tree in shapes:
+            text = ce(tree)
+            sx = sugar_parse(text)
+            for iv in itertools.product((-2, 0, 3), repeat=3):
+                for bv in itertools.product((False, True), repeat=3):
+                    nn += 1
+                    val_text = dict(zip(leaves_i, iv)) | dict(zip(leaves_b, bv))
+                    got = sugar_eval(sx, val_text)
+                    want = _tree_value(tree, {id(p): iv[0], id(q): iv[1], id(r): iv[2], id(x): bv[0], id(y): bv[1], id(z): bv[2]})
+                    if got != want or type(got) is not type(want):
+                        badn = (label, text, val_text, got, want)
+                        break
+                if badn:
+                    break
+            if badn:
+                break
+        if badn:
+            rep.finding("OPC-4", SUGAR, "_convert_expr", "printing of nested expressions",
+                        f"the tree {badn[0]} is emitted as {badn[1]!r}, which Sugar reads as {badn[3]!r} under {badn[2]!r}; the tree means {badn[4]!r}")
+        else:
+            rep.ok("OPC-4", f"{len(shapes)} nested trees: the emitted text, read with the Sugar grammar, means what the tree means ({nn} valuations)", points=nn)
+    except (Undecided, SugarSyntax) as ex:
+        rep.undecide("OPC-4", f"nested expressions: {ex}")
+    except Raised as ex:
+        rep.finding("OPC-4", SUGAR, "_convert_expr", "printing of nested expressions", f"the printer raises {ex.what}")
     rep.floor("OPC-4", 18)
     return names
+
+
+class SugarSyntax(Exception):
+    pass
+
+
+def sugar_parse(text: str) -> Any:
+    toks = text.replace("(", " ( ").replace(")", " ) ").split()
+    pos = 0
+
+    def rd() -> Any:
+        nonlocal pos
+        if pos >= len(toks):
+            raise SugarSyntax("unexpected end of text")
+        t = toks[pos]
+        pos += 1
+        if t == "(":
+            out = []
+            while pos < len(toks) and toks[pos] != ")":
+                out.append(rd())
+            if pos >= len(toks):
+                raise SugarSyntax("missing )")
+            pos += 1
+            return out
+        if t == ")":
+            raise SugarSyntax("unexpected )")
+        return t
+
+    r_ = rd()
+    if pos != len(toks):
+        raise SugarSyntax("trailing tokens")
+    return r_
+
+
+def sugar_eval(sx: Any, val: Dict[str, Any]) -> Any:
+    """meaning of a Sugar CSP expression (the frozen external grammar): n-ary + && ||, `-` is negation with one operand and a
+    left-associated difference otherwise, binary comparisons, iff, xor, =>, if"""
+    if isinstance(sx, str):
+        if sx in ("true", "false"):
+            return sx == "true"
+        if sx in val:
+            return val[sx]
+        try:
+            return int(sx)
+        except ValueError:
+            raise SugarSyntax(f"unknown atom {sx}")
+    if not sx or not isinstance(sx[0], str):
+        raise SugarSyntax("operator expected")
+    opn, args = sx[0], [sugar_eval(a, val) for a in sx[1:]]
+    ints = all(isinstance(a, int) and not isinstance(a, bool) for a in args)
+    bools = all(isinstance(a, bool) for a in args)
+    if opn == "+" and ints:
+        return sum(args)
+    if opn == "-" and ints and args:
+        return -args[0] if len(args) == 1 else args[0] - sum(args[1:])
+    if opn in ("=", "!=", "<=", "<", ">=", ">") and ints and len(args) == 2:
+        a, b = args
+        return {"=": a == b, "!=": a != b, "<=": a <= b, "<": a < b, ">=": a >= b, ">": a > b}[opn]
+    if opn == "!" and bools and len(args) == 1:
+        return not args[0]
+    if opn == "&&" and bools:
+        return all(args)
+    if opn == "||" and bools:
+        return any(args)
+    if opn == "iff" and bools and len(args) == 2:
+        return args[0] == args[1]
+    if opn == "xor" and bools and len(args) == 2:
+        return args[0] != args[1]
+    if opn == "=>" and bools and len(args) == 2:
+        return (not args[0]) or args[1]
+    if opn == "if" and len(args) == 3 and isinstance(args[0], bool):
+        return args[1] if args[0] else args[2]
+    if opn == "alldifferent" and ints:
+        return len(set(args)) == len(args)
+    raise SugarSyntax(f"ill-formed ({opn} ...) with {len(args)} operand(s)")
+
+
+def _tree_value(t: Any, val: Dict[int, Any]) -> Any:
+    if isinstance(t, (bool, int)):
+        return t
+    if id(t) in val:
+        return val[id(t)]
+    opn = t.attrs["op"].name.split(".")[-1]
+    xs = [_tree_value(o, val) for o in t.attrs["operands"]]
+    return EM.REF[opn]["f"](xs)
 
 
 def _show(x: Any) -> str:
